@@ -148,6 +148,9 @@ def gen_cases(chk):
         add(mode, [-INF, -INF, -INF, 3.0], [3, 3, 2, 1], 3, True, "only the last point has likelihood")
         add(mode, [-700.0, 0.0, 700.0], [1, 1, 1], None, False, "1e-304 .. 1e304 with one live point")
         add(mode, [0.25] * 7, [2000] * 7, None, True, "ties, 2000 live points")
+        # prior volume far below the float64 underflow of exp (log X < -745) while the likelihood keeps rising:
+        # the mass sits where exp(log_vol) is 0.0 in double precision (seeded change C02-logsubexp-linear-underflow)
+        add(mode, [0.75 * i for i in range(1200)], [1] * 1200, 1, True, "deep volume: log X below -745, rising likelihood")
     lengths = [1, 2, 3, 5, 8, 13, 30, 60, 120, 300] if quick else \
         [1, 2, 3, 5, 8, 13, 30, 60, 120, 300, 300, 700, 1500, 3000, 5000]
     reps = 2 if quick else 4
